@@ -40,6 +40,9 @@ pub struct Scenario {
 	pub fail: Option<(&'static str, usize)>, // (fail point, committer index)
 	pub reader: bool,
 	pub stall_low: bool,
+	/// value-log scenario: tables pointing into several vlog files, a compaction thread and a
+	/// flush thread (no committers)
+	pub vlog: bool,
 	/// preemption bounds (quick, thorough)
 	pub bounds: (usize, usize),
 }
@@ -56,6 +59,7 @@ pub fn scenarios(property: &str, tier: Tier) -> Vec<Scenario> {
 		fail: None,
 		reader: false,
 		stall_low: false,
+		vlog: false,
 		bounds: (2, 3),
 	};
 	let all = vec![
@@ -147,6 +151,13 @@ pub fn scenarios(property: &str, tier: Tier) -> Vec<Scenario> {
 			reader: true,
 			..base.clone()
 		},
+		Scenario {
+			name: "c11-flush-and-cleanup-during-compaction",
+			property: "C11",
+			bounds: (2, 3),
+			vlog: true,
+			..base.clone()
+		},
 	];
 	let _ = tier;
 	all.into_iter().filter(|s| s.property == property).collect()
@@ -202,7 +213,35 @@ fn calibrate_near_full(opt: &OptSet) -> Result<usize, String> {
 	.clone()
 }
 
+pub const VLOG_KEYS: [&str; 4] = ["m1", "m2", "n1", "z9"];
+
+fn vlog_value(k: &str) -> Vec<u8> {
+	let mut v = format!("big-{k}-").into_bytes();
+	v.resize(150, b'x');
+	v
+}
+
 fn setup(sc: &Scenario) -> Result<Setup, String> {
+	if sc.vlog {
+		// two L0 tables whose values live in vlog files 1..3, plus an immutable memtable with one
+		// more large value waiting to be flushed
+		let opt = OptSet::base("sched-vlog8-64-cache0").levels(2).with_vlog(8, 64).cache(0);
+		let mut w = World::new(opt, &[])?;
+		let put = |w: &mut World, k: &str| -> Result<(), String> { w.commit(&[crate::model::Write::set(k.as_bytes(), &vlog_value(k))], surrealkv::Durability::Eventual)?.map_err(|e| e) };
+		put(&mut w, "m1")?;
+		put(&mut w, "m2")?;
+		w.physical(crate::world::Phys::FlushAll)?;
+		put(&mut w, "n1")?;
+		w.physical(crate::world::Phys::FlushAll)?;
+		put(&mut w, "z9")?;
+		w.physical(crate::world::Phys::Rotate)?;
+		let tree = w.tree().clone();
+		return Ok(Setup {
+			world: w,
+			tree,
+			prefill_entries: 4,
+		});
+	}
 	let mut opt = OptSet::base("sched");
 	if sc.near_full {
 		opt = opt.memtable_size(4096);
@@ -314,6 +353,21 @@ fn run_schedule(sc: &Scenario, prefix: &[usize]) -> Result<Outcome, String> {
 			}
 		}));
 	}
+	if sc.vlog {
+		for which in 0..2 {
+			let tree = su.tree.clone();
+			let rt_handle = su.world.rt.as_ref().unwrap().handle().clone();
+			programs.push(Box::new(move |_s: &Arc<Sched>, _me: usize| -> Result<(), String> {
+				let _g = rt_handle.enter();
+				if which == 0 {
+					tree.verif_compact_round().map_err(|e| format!("compact: {e}"))?;
+				} else {
+					tree.verif_flush_oldest().map_err(|e| format!("flush: {e}"))?;
+				}
+				Ok(())
+			}));
+		}
+	}
 	if sc.bg {
 		let tree = su.tree.clone();
 		let rt_handle = su.world.rt.as_ref().unwrap().handle().clone();
@@ -356,7 +410,35 @@ fn run_schedule(sc: &Scenario, prefix: &[usize]) -> Result<Outcome, String> {
 		}));
 	}
 	// probe: a fresh read-only transaction at every scheduling point
-	let probe: Option<ProbeFn> = if sc.property == "C05" {
+	let probe: Option<ProbeFn> = if sc.property == "C11" {
+		let tree = su.tree.clone();
+		let board = Arc::clone(&board);
+		let rt_handle = su.world.rt.as_ref().unwrap().handle().clone();
+		Some(Box::new(move |step: usize, label: &'static str| {
+			let _g = rt_handle.enter();
+			let mut obs = ProbeObs {
+				step,
+				label,
+				visible_seq: 0,
+				view: BTreeMap::new(),
+				returned_ok: vec![],
+				err: None,
+			};
+			match tree.begin_with_mode(Mode::ReadOnly) {
+				Ok(t) => {
+					for k in VLOG_KEYS {
+						match t.get(k.as_bytes()) {
+							Ok(Some(v)) if v == vlog_value(k) => {}
+							Ok(other) => obs.err = Some(format!("get({k}) = {:?}", other.map(|v| String::from_utf8_lossy(&v).chars().take(20).collect::<String>()))),
+							Err(e) => obs.err = Some(format!("get({k}): {e}")),
+						}
+					}
+				}
+				Err(e) => obs.err = Some(format!("begin: {e}")),
+			}
+			board.probes.lock().unwrap().push(obs);
+		}))
+	} else if sc.property == "C05" {
 		let tree = su.tree.clone();
 		let board = Arc::clone(&board);
 		let all_keys: Vec<&'static str> = sc.committers.iter().flatten().copied().collect();
@@ -397,7 +479,7 @@ fn run_schedule(sc: &Scenario, prefix: &[usize]) -> Result<Outcome, String> {
 	let preempted = ex.points.iter().any(|p| p.running_enabled && p.chosen != 0);
 	let mut out = Outcome {
 		awaited: ex.points.iter().any(|p| p.label == "await"),
-		shape_changed: su.world.shape().map(|s| !s.immutables.is_empty() || s.levels.iter().any(|l| !l.is_empty())).unwrap_or(false) && !sc.reader,
+		shape_changed: su.world.shape().map(|s| !s.immutables.is_empty() || s.levels.iter().any(|l| !l.is_empty())).unwrap_or(false) && !sc.reader && !sc.vlog,
 		exec_points: ex.points.clone(),
 		failure: None,
 		obs_hash: 0,
@@ -616,6 +698,40 @@ fn run_schedule(sc: &Scenario, prefix: &[usize]) -> Result<Outcome, String> {
 					}
 				}
 			}
+		}
+		"C11" => {
+			for (i, r) in results.iter().enumerate() {
+				if let Err(e) = r {
+					out.failure = Some(("background-error".into(), format!("thread {i}: {e}")));
+					return Ok(out);
+				}
+			}
+			let probes = board.probes.lock().unwrap().clone();
+			for p in &probes {
+				if let Some(e) = &p.err {
+					out.failure = Some(("value-unreadable-during-schedule".into(), format!("probe at point {} ({}): {e}", p.step, p.label)));
+					return Ok(out);
+				}
+			}
+			// afterwards: every value through a fresh reader, then again after a clean reopen
+			{
+				let _g = su.world.rt.as_ref().unwrap().enter();
+				let t = su.tree.begin_with_mode(Mode::ReadOnly).map_err(|e| format!("{e}"))?;
+				for k in VLOG_KEYS {
+					match t.get(k.as_bytes()) {
+						Ok(Some(v)) if v == vlog_value(k) => {}
+						Ok(other) => {
+							out.failure = Some(("value-wrong-after-schedule".into(), format!("get({k}) = {:?}", other.map(|v| v.len()))));
+							return Ok(out);
+						}
+						Err(e) => {
+							out.failure = Some(("value-unreadable-after-schedule".into(), format!("get({k}): {e}")));
+							return Ok(out);
+						}
+					}
+				}
+			}
+			h.push_str(&format!("{}", probes.len()));
 		}
 		"C01" => {
 			let obs = board.reader_obs.lock().unwrap().clone();
